@@ -1,11 +1,74 @@
 package main
 
 import (
+	"context"
+	"encoding/json"
 	"fmt"
 	"os"
+	"os/exec"
 	"path/filepath"
 	"strings"
+	"time"
 )
+
+type replayTpl struct {
+	Template string `json:"template"`
+	Pkg      string `json:"pkg"`
+	Case     string `json:"case"`
+	Race     bool   `json:"race"`
+}
+
+// replayTemplate runs the hand-written scenario registered for an obligation (by its name
+// without the "#k" return ordinal) against the real code under the repository being checked.
+func replayTemplate(prog *Program, prop string, r *oblResult, name string) (bool, string, bool) {
+	b, err := os.ReadFile(filepath.Join(verifDir, "replay_templates", "index.json"))
+	if err != nil {
+		return false, "", false
+	}
+	idx := map[string]replayTpl{}
+	if json.Unmarshal(b, &idx) != nil {
+		return false, "", false
+	}
+	base := r.O.Name
+	if i := strings.Index(base, "#"); i >= 0 {
+		base = base[:i]
+	}
+	tpl, ok := idx[base]
+	if !ok {
+		return false, "", false
+	}
+	src, err := os.ReadFile(filepath.Join(verifDir, "replay_templates", tpl.Template))
+	if err != nil {
+		return false, "template missing: " + err.Error(), true
+	}
+	test := strings.Replace(string(src), "// KBV-CASE", tpl.Case, 1)
+	rdir := filepath.Join(verifDir, "replays", prop)
+	_ = os.MkdirAll(rdir, 0o755)
+	testPath := filepath.Join(rdir, name+"_test.go.txt")
+	_ = os.WriteFile(testPath, []byte(test), 0o644)
+	pkgDir := filepath.Join(prog.repo, tpl.Pkg)
+	ov := map[string]map[string]string{"Replace": {filepath.Join(pkgDir, "zz_kbv_replay_test.go"): testPath}}
+	ovb, _ := json.Marshal(ov)
+	ovPath := filepath.Join(rdir, name+".overlay.json")
+	_ = os.WriteFile(ovPath, ovb, 0o644)
+	ctx, cancel := context.WithTimeout(context.Background(), 300*time.Second)
+	defer cancel()
+	args := []string{"test", "-overlay", ovPath, "-vet=off", "-count=1", "-timeout", "120s", "-run", "^TestKbvReplay$", "-v"}
+	if tpl.Race {
+		args = append(args, "-race")
+	}
+	args = append(args, ".")
+	cmd := exec.CommandContext(ctx, "go", args...)
+	cmd.Dir = pkgDir
+	cmd.Env = append(os.Environ(), "GOFLAGS=-mod=mod", "GOPROXY=off", "GOSUMDB=off", "GOTOOLCHAIN=local")
+	out, _ := cmd.CombinedOutput()
+	o := string(out)
+	if len(o) > 6000 {
+		o = o[:3000] + "\n...\n" + o[len(o)-3000:]
+	}
+	log := fmt.Sprintf("replay test: %s\ncommand: (cd %s && go %s)\n%s", testPath, pkgDir, strings.Join(args, " "), o)
+	return strings.Contains(string(out), "KBV-REPRODUCED") || (tpl.Race && strings.Contains(string(out), "DATA RACE")), log, true
+}
 
 // writeReplay writes the replay file of a failed obligation and, when the model can be
 // turned into inputs of the real function, runs it against the real code.
@@ -15,7 +78,17 @@ func writeReplay(prog *Program, prop string, r *oblResult) (string, string) {
 	var sb strings.Builder
 	fmt.Fprintf(&sb, "property: %s\nobligation: %s\nkind: %s\nstatement: %s\ncontract location: %s\nsolver status: %s (%s)\n", prop, r.O.Name, r.O.Kind, r.O.Text, r.O.Where, r.Res.Status, r.Res.Solver)
 	suffix := " no-failing-input-found"
-	if r.Res.Status == "sat" && r.G != nil {
+	if ok, log, had := replayTemplate(prog, prop, r, name); had {
+		if r.Res.Status == "sat" {
+			fmt.Fprintf(&sb, "\nmodel (values of the function's parameters):\n%s\n", r.Res.Model)
+		} else {
+			fmt.Fprintf(&sb, "\nsolver output:\n%s\n", r.Res.Output)
+		}
+		sb.WriteString("\nreplay against the real code (scenario template for this obligation):\n" + log + "\n")
+		if ok {
+			suffix = ""
+		}
+	} else if r.Res.Status == "sat" && r.G != nil {
 		fmt.Fprintf(&sb, "\nmodel (values of the function's parameters):\n%s\n", r.Res.Model)
 		ok, log := replayModel(prog, prop, r, name)
 		sb.WriteString("\nreplay against the real code:\n" + log + "\n")
